@@ -68,7 +68,7 @@ from mc.runner import run_tasks
 
 PID = "C16"
 CAP = {"quick": 20_000, "thorough": 50_000}  # elements enumerated per converted action space
-IDX_CAP = 6
+IDX_CAP = 6  # elements per leaf that get single-element deviations (thorough: 16), see ref.pick_indices
 MAX_VIOL_PER_SIG = 3
 EQ_BLOCKS = 6
 
@@ -384,7 +384,7 @@ def _has_size0(v: ref.View) -> bool:
     return v.size == 0
 
 
-def eq_case(acc: Acc, a: Item, b: Item, note: str = "") -> None:
+def eq_case(acc: Acc, a: Item, b: Item, note: str = "", replay: Optional[Dict[str, Any]] = None) -> None:
     """One ordered pair of same-kind specs: `a == b` against the reference relation."""
     ra, sa, va, ka = a
     rb, sb, vb, kb = b
@@ -404,7 +404,7 @@ def eq_case(acc: Acc, a: Item, b: Item, note: str = "") -> None:
     sig = eq_signature(sa, va, sb, vb, exp, exc is not None)
     what = f"raised {_exc(exc)}" if exc is not None else f"returned {got}"
     acc.violation(sig, f"{note}({uni.label(ra)}) == ({uni.label(rb)}) {what}; reference relation says {exp}",
-                  {"kind": "eq", "a": ra, "b": rb}, rank=int(_has_size0(va) or _has_size0(vb)))
+                  replay or {"kind": "eq", "a": ra, "b": rb}, rank=int(_has_size0(va) or _has_size0(vb)))
 
 
 def make_item(r: Dict[str, Any], spec: Any = None) -> Item:
@@ -588,8 +588,8 @@ def check_replace(acc: Acc, r: Dict[str, Any], spec: Any, view: ref.View, key: r
     if m or type(new) is not type(spec):
         acc.violation(f"{view.kind}.replace():not-equal", f"{uni.label(r)}.replace(): {m}", rp)
     else:
-        eq_case(acc, (r, spec, view, key), (r, new, nv, ref.EqKey(nv)), note="spec == spec.replace(): ")
-        eq_case(acc, (r, new, nv, ref.EqKey(nv)), (r, spec, view, key), note="spec.replace() == spec: ")
+        eq_case(acc, (r, spec, view, key), (r, new, nv, ref.EqKey(nv)), note="spec == spec.replace(): ", replay=rp)
+        eq_case(acc, (r, new, nv, ref.EqKey(nv)), (r, spec, view, key), note="spec.replace() == spec: ", replay=rp)
     # the original was not mutated by any of the above
     acc.transitions += 1
     m = ref.view_mismatch(ref.view_from_spec(spec), view)
@@ -619,8 +619,8 @@ def check_pickle(acc: Acc, r: Dict[str, Any], spec: Any, view: ref.View, key: re
             acc.violation(f"{view.kind}.pickle:changes-{m[0]}", f"{uni.label(r)} after a pickle round trip: {m[1]}", rp)
             continue
         it_new = (r, new, nv, ref.EqKey(nv))
-        eq_case(acc, (r, spec, view, key), it_new, note="spec == unpickled: ")
-        eq_case(acc, it_new, (r, spec, view, key), note="unpickled == spec: ")
+        eq_case(acc, (r, spec, view, key), it_new, note="spec == unpickled: ", replay=rp)
+        eq_case(acc, it_new, (r, spec, view, key), note="unpickled == spec: ", replay=rp)
 
 
 # ---------------------------------------------------------------------------------------- finite spaces
@@ -729,9 +729,15 @@ def _nested_suite(acc: Acc, r: Dict[str, Any], spec: Any, view: ref.View, key: r
     check_pickle(acc, r, spec, view, key)
 
 
+def _set_tier(tier: str) -> None:
+    global IDX_CAP
+    IDX_CAP = 16 if tier == "thorough" else 6
+
+
 def task_leaf(model: str, kind: str, tier: str, dtypes: Optional[List[str]] = None) -> Dict[str, Any]:
     """Synthetic leaf specs of one kind: attributes, generate, validate alphabet, conversions, replace,
     pickle, finite converted spaces.  The value alphabet runs on names "" and "a"; replace/pickle on all."""
+    _set_tier(tier)
     acc = Acc(model)
     recipes = uni.LEAF_UNIVERSE[kind]() if dtypes is None else uni.bounded_recipes(tuple(dtypes))
     cap = CAP[tier]
@@ -743,6 +749,7 @@ def task_leaf(model: str, kind: str, tier: str, dtypes: Optional[List[str]] = No
 
 
 def task_nested(model: str, tier: str, part: int, parts: int) -> Dict[str, Any]:
+    _set_tier(tier)
     acc = Acc(model)
     recipes = uni.nested_recipes()
     keep = set(uni.nested_validation_subset(recipes))
@@ -808,6 +815,7 @@ def _env_items(name: str, ctor: str) -> List[Tuple[str, Item]]:
 
 def task_env(model: str, family: str, ctors: List[Tuple[str, str]], tier: str) -> Dict[str, Any]:
     """Every node of the four specs of the family's configurations."""
+    _set_tier(tier)
     acc = Acc(model)
     cap = CAP[tier]
     for name, ctor in ctors:
@@ -951,10 +959,11 @@ def main(tier: str, seed: int) -> int:
     rep.assumptions += [
         "bounded-exhaustive over the finite universe and value alphabet listed in the module docstring; "
         "NaN is outside the alphabet",
-        f"finite converted spaces are enumerated completely up to {CAP[tier]} elements; larger ones by the "
-        "axis lines through both corners plus the lexicographically first elements (listed under capped_spaces)",
-        "single-element deviations on arrays with more than 6 elements touch first/middle/last and one element "
-        "per distinct bound pair",
+        f"finite converted spaces are enumerated completely up to {CAP[tier]} elements; larger ones (models "
+        "actions-over-cap-*, reported as not exhaustive) by the axis lines through both corners plus the "
+        "lexicographically first elements: 1024 per synthetic space, min(cap, 10000) per environment action space",
+        f"single-element deviations on arrays with more than {16 if tier == 'thorough' else 6} elements touch "
+        "first/middle/last and one element per distinct bound pair",
         "specs of different kinds (incl. nested specs with different skeletons) are not compared; size-0 bounded "
         "specs with different raw bounds are not judged; float32 subnormal steps replaced by the smallest normal",
         "gym elements of non-int32 (Multi)DiscreteArray specs are re-typed before validation (counted)",
@@ -962,7 +971,7 @@ def main(tier: str, seed: int) -> int:
     rep.coverage["bounds"] = {"shapes": [list(s) for s in uni.SHAPES], "dtypes": list(ref.DTYPES), "names": list(uni.NAMES),
                               "discrete_num_values": list(uni.DISCRETE_NUM_VALUES),
                               "multi_discrete_num_values": list(uni.MULTI_NUM_VALUES), "nested_depth": 2,
-                              "action_space_cap": CAP[tier], "element_index_cap": IDX_CAP}
+                              "action_space_cap": CAP[tier], "element_index_cap": 16 if tier == "thorough" else 6}
     return rep.finish()
 
 
